@@ -535,6 +535,14 @@ def main_entry(run_fn, prop: str):
     ctx = Ctx(prop, a.tier, seed, a.replay)
     try:
         run_fn(ctx)
+        if ctx.tie_broken() and not ctx.failures and ctx.widen == 1 and not a.replay:
+            # the tie broke during the run (correspondence): search again with the widened budget
+            ctx2 = Ctx(prop, a.tier, seed, a.replay)
+            ctx2.widen = 8
+            ctx2.notes.append("second pass: the correspondence broke in the first pass, search repeated with the widened budget")
+            run_fn(ctx2)
+            ctx2.t0 = ctx.t0
+            ctx = ctx2
         rc = ctx.finish()
     except Infra as e:
         print(f"INFRA-FAILURE property={prop}: {e}", file=sys.stderr)
